@@ -446,14 +446,22 @@ fn decode_mutations<E>(
     outputs: Outputs,
     mut set: SolutionSet,
 ) -> Result<SolutionSet, PredicatesError<E>> {
+    // Set to check for duplicate mutations: the slots the set already proposes a value for.
+    let mut mut_set: HashSet<(ContentAddress, Key)> = set
+        .solutions
+        .iter()
+        .flat_map(|s| {
+            s.state_mutations
+                .iter()
+                .map(|m| (s.predicate_to_solve.contract.clone(), m.key.clone()))
+        })
+        .collect();
+
     // For each output check if there are any state mutations and apply them.
     for output in outputs.data {
         // No two outputs can point to the same solution index.
         // Get the solution that these outputs came from.
         let s = &mut set.solutions[output.solution_index as usize];
-
-        // Set to check for duplicate mutations.
-        let mut mut_set = HashSet::new();
 
         // For each memory output decode the mutations and apply them.
         for data in output.data {
@@ -468,7 +476,10 @@ fn decode_mutations<E>(
                         })?
                     {
                         // Check for duplicate mutation keys.
-                        if !mut_set.insert(mutation.key.clone()) {
+                        if !mut_set.insert((
+                            s.predicate_to_solve.contract.clone(),
+                            mutation.key.clone(),
+                        )) {
                             return Err(PredicatesError::Failed(PredicateErrors(vec![(
                                 output.solution_index,
                                 PredicateError::Mutations(MutationsError::DuplicateMutations(
